@@ -121,7 +121,7 @@ fn event(r: &mut Rng, pool: &mut Vec<W>) -> (&'static str, Vec<u64>, Vec<u64>) {
             let i = r.below(N_BIN);
             let a = if r.chance(1, 8) { if r.coin() { tf_in(r, -1022, -960) } else { tf_in(r, 960, 1023) } } else { pick(r, pool) };
             let b = if r.chance(1, 8) { tf_in(r, -60, 60) } else if r.coin() { tf_related(r, a, -300, 300, 3 + (i % 7)) } else { pick(r, pool) };
-            let (a, b) = if (15..=18).contains(&i) { (tf_in(r, -20, 20), tf_in(r, -6, 6)) } else { (a, b) };
+            let (a, b) = if (15..=18).contains(&i) { if r.chance(1, 6) { (tf_in(r, -700, 700), tf_in(r, -700, 700)) } else { (tf_in(r, -20, 20), tf_in(r, -6, 6)) } } else { (a, b) };
             (BIN_NAMES[i as usize], vec![hx(a.0), hx(a.1), hx(b.0), hx(b.1)], guard(|| vec![w(bin(i, t(a), t(b)))]))
         }
         11 | 12 => {
